@@ -279,8 +279,29 @@ Definition hp_dealloc (s : hstate) (p : Z) : hres hstate :=
   | HFuel => HFuel
   end.
 
-Definition hp_deallocall (s : hstate) : hstate :=
-  mkhstate false (repeat 0 (Z.to_nat BIN_COUNT)) (h_mem s).
+Definition heap_start (c : hcfg) : Z := align_forward (h_base c) ALLOC_ALIGN.
+Definition heap_end (c : hcfg) : Z :=
+  heap_start c + (h_size c - (heap_start c - h_base c) - NODE).
+
+(* HeapAllocatorT:deallocall (repair 9ef0717): when initialised, walk the chunks from heap_start and
+   clear the next/prev words (the used marks) of every chunk and of the end node *)
+Fixpoint clear_marks (fuel : nat) (m : mem) (cur hend : Z) : option mem :=
+  match fuel with
+  | O => None
+  | S k =>
+      if cur <? hend then
+        let next := next_adj m cur in
+        clear_marks k (mset (mset m (cur + 16) 0) (cur + 24) 0) next hend
+      else Some (mset (mset m (cur + 16) 0) (cur + 24) 0)
+  end.
+
+Definition hp_deallocall (c : hcfg) (s : hstate) : hres hstate :=
+  if h_initialized s then
+    match clear_marks (heap_fuel c) (h_mem s) (heap_start c) (heap_end c) with
+    | Some m => HOk (mkhstate false (repeat 0 (Z.to_nat BIN_COUNT)) m)
+    | None => HFuel
+    end
+  else HOk (mkhstate false (repeat 0 (Z.to_nat BIN_COUNT)) (h_mem s)).
 
 Definition hp_realloc (c : hcfg) (s : hstate) (p newsize oldsize : Z) : hres (hstate * Z) :=
   match ensure_init c s with
@@ -297,10 +318,6 @@ Definition hp_realloc (c : hcfg) (s : hstate) (p newsize oldsize : Z) : hres (hs
   end.
 
 (* what the harness prints: the walk of all chunks from heap_start to the end node *)
-Definition heap_start (c : hcfg) : Z := align_forward (h_base c) ALLOC_ALIGN.
-Definition heap_end (c : hcfg) : Z :=
-  heap_start c + (h_size c - (heap_start c - h_base c) - NODE).
-
 Fixpoint heap_walk (fuel : nat) (m : mem) (cur hend : Z) : list (Z * Z * Z * Z * Z) * bool :=
   let item := (cur, n_size m cur, n_prev_adj m cur, n_next m cur, n_prev m cur) in
   if cur =? hend then ([item], true)
